@@ -12,8 +12,7 @@ ASSUMPTIONS = [
     "after the first poll",
     "delivered messages are what UtpMessage::deserialize can produce (ST_DATA has a non-empty payload, every other type "
     "an empty one; C11); header fields are arbitrary u16/u32 values",
-    "assumed-and-monitored for the proofs: clock in [0, 2^60 s]; at most 1023 outstanding segments (within_tol, D4); "
-    "the connection is not re-polled in state Closed (D15 class otherwise)",
+    "assumed-and-monitored for the proofs: clock in [0, 2^60 s]; at most 1023 outstanding segments (within_tol, D4)",
     "one connection only: the socket-level clauses (unknown peers / connection ids, cross-contamination, unparseable "
     "datagrams) are not covered here",
 ]
@@ -24,7 +23,7 @@ RULE = ("shared vsock generators (open + closed loop) plus a HOSTILE stream: arb
         "(scripted EMSGSIZE, tiny limits, limit changes) is used for the correspondence only; "
         "non-trivial = >= 3 polls and data exchanged; distinct = distinct case line")
 
-KNOWN_IDS = ("KF2", "D15")
+KNOWN_IDS = ("KF2",)
 
 
 # ----------------------------------------------------------------------------- hostile generator
@@ -218,9 +217,6 @@ CLASSIFIERS = [
     ("KF2", "c10_kf2_class",
      "EBUG_EmsgSizeNoProbe after the peer's say-so raised the proven segment size above what the forward path "
      "carries (incoming ST_DATA larger than the proven size, or an ACK covering a never-sent MTU probe)"),
-    ("D15", "c10_closed_pending_class",
-     "EBUG_RecvInClosed: a poll that found the transport not writable returned Pending in state Closed; the next "
-     "poll processed a queued message in Closed"),
 ]
 
 
